@@ -24,6 +24,7 @@ import CaddyModel.C04.Witness
 import CaddyModel.C04.Clients
 import CaddyModel.C04.Places
 import CaddyModel.C04.Stuck
+import CaddyModel.C04.ClientTrace
 import CaddyModel.C04.GenTie
 
 namespace CaddyModel.C04
@@ -586,6 +587,48 @@ theorem client_reference_is_in_the_map_under_its_key (nk : Nat) (progs : List (L
 -- non-vacuity: a contract-breaking run (not clean) is not stuck either
 example : let y := runSched 1 [[.ln 0 true], [.del 0, .del 0]] [0, 0, 1, 1, 1, 1]
     (y.clean, y.stuck, y.g.pool 0) = (false, false, none) := by decide
+
+/-! ### the clause for client traces: no close event before the last release -/
+
+/-- **no close event precedes the last release, and none happens twice — at every point of every client
+    trace.**  After ANY schedule prefix of a clean run (and after its completion): an entry has at most one
+    close event (a Delete on its way to the destructor, the destructor call, or the decision that there
+    is nothing to destruct), and as soon as there is one, no thread remembers a reference to the entry any
+    more and the pool counts none. -/
+theorem no_close_before_last_release (nk : Nat) (progs : List (List Op)) (sched : List Nat)
+    (hc : (runPrefix nk progs sched).clean = true) {e : Nat} (he : e < (runPrefix nk progs sched).g.next) :
+    closeEvents ((runPrefix nk progs sched).g.ent e) ≤ 1
+    ∧ (0 < closeEvents ((runPrefix nk progs sched).g.ent e) →
+        holdCount (runPrefix nk progs sched).threads e = 0 ∧ ((runPrefix nk progs sched).g.ent e).refs = 0) := by
+  have hb := prefix_books nk progs sched
+  obtain ⟨h1, h2⟩ := close_events_after_last_release (prefix_reachable nk progs sched hc) he
+  refine ⟨h1, fun hd => ?_⟩
+  obtain ⟨hh, hr⟩ := h2 hd
+  rw [← hb.count e he]
+  exact ⟨hh, hr⟩
+
+/-- **the same for client programs, with no hypothesis left.**  Programs built from whole log set-ups
+    (`logSetupOp`, whatever their outcome: ready, bad level, failing encoder), `openWriter` / `provisionUpstream`
+    acquisitions, conditional Deletes and the cleanup `closeAll` contain no unconditional Delete; for them, for
+    every number of configs, every schedule and every prefix of it: at most one close event per value, and
+    never while any config still remembers a reference — in particular a log whose set-up failed after its
+    writer was opened keeps the writer alive for every other config until it, too, has closed its logs. -/
+theorem client_traces_never_close_early (nk : Nat) (progs : List (List Op)) (sched : List Nat)
+    (hp : ∀ p ∈ progs, NoRawDelete p) {e : Nat} (he : e < (runPrefix nk progs sched).g.next) :
+    closeEvents ((runPrefix nk progs sched).g.ent e) ≤ 1
+    ∧ (0 < closeEvents ((runPrefix nk progs sched).g.ent e) → holdCount (runPrefix nk progs sched).threads e = 0) :=
+  let h := no_close_before_last_release nk progs sched (client_run_clean nk progs sched hp).1 he
+  ⟨h.1, fun hd => (h.2 hd).1⟩
+
+-- non-vacuity (the scenario of the log set-up glue): config 0 sets up a log that fails on its level after
+-- opening writer 0, config 1 sets up a working log on the same writer; after config 0 has closed its logs the
+-- writer has no close event and config 1 still remembers it; after both have, exactly one
+example : let y := runPrefix 1 [[logSetupOp 0 .badLevel, .closeAll], [logSetupOp 0 .good, .closeAll]] [0, 0, 1, 1, 0]
+    (y.clean, closeEvents (y.g.ent 0), holdCount y.threads 0, (y.g.ent 0).refs) = (true, 0, 1, 1) := by decide
+example : let y := runSched 1 [[logSetupOp 0 .badLevel, .closeAll], [logSetupOp 0 .good, .closeAll]] [0, 0, 1, 1, 0]
+    (y.clean, closeEvents (y.g.ent 0), (y.g.ent 0).destructed, holdCount y.threads 0) = (true, 1, 1, 0) := by decide
+example : NoRawDelete [logSetupOp 0 .badLevel, logSetupOp 1 .encoderFails, .closeAll] := by
+  intro op hop k; simp [logSetupOp] at hop; rcases hop with h | h | h <;> (subst h; simp)
 
 -- the log-writer client: config 0 opens writers 0 and 1, config 1 opens writer 0 and fails to open writer 1;
 -- after config 0 closed its logs (closeAll) config 1 still holds writer 0 alive; after both closed, nothing is left
